@@ -117,6 +117,8 @@ func (s *Sandbox) blobGet(ls *lua.LState) int {
 		ls.RaiseError("Failed retrieving \"%s\" blob \"%s\": %v", r.r.CommonName(), d, err)
 	}
 
+	s.closers = append(s.closers, b)
+
 	ud, err := wrapUserData(ls, &sbBlob{b: b, r: r.r, rdr: b, d: digest.Digest(d)}, nil, luaBlobName)
 	if err != nil {
 		ls.RaiseError("Failed packaging \"%s\" blob \"%s\": %v", r.r.CommonName(), d, err)
